@@ -258,8 +258,15 @@ func c10Check(coll geojson.Object, expectChildren []string, probes []geojson.Obj
 		}
 	}
 	// predicates: every probe is evaluated; all mismatches are reported (a listed
-	// one must not hide another probe's)
-	for pi, x := range probes {
+	// one must not hide another probe's). The probes are followed by the
+	// collection's own children (the very objects, up to 6) and the collection
+	// itself: identity must not matter.
+	own := append([]geojson.Object{}, ch...)
+	if len(own) > 6 {
+		own = own[:6]
+	}
+	all := append(append(append([]geojson.Object{}, probes...), own...), coll)
+	for pi, x := range all {
 		parts := partsOf(x)
 		mi, mc := false, false
 		anyPart := false
